@@ -2283,7 +2283,6 @@ func (d *Decoder) decodeParameterTypeValues(visited *cadenceTypeByCCFTypeID) ([]
 	}
 
 	parameterTypes := make([]cadence.Parameter, count)
-	parameterLabels := make(map[string]struct{}, count)
 	parameterIdentifiers := make(map[string]struct{}, count)
 
 	common.UseMemory(d.gauge, common.MemoryUsage{
@@ -2301,16 +2300,16 @@ func (d *Decoder) decodeParameterTypeValues(visited *cadenceTypeByCCFTypeID) ([]
 		// "Valid CCF Encoding Requirements" in CCF specs:
 		//
 		//   "All parameter lists MUST have unique identifier"
-		if _, ok := parameterLabels[param.Label]; ok {
-			return nil, fmt.Errorf("found duplicate parameter label %s", param.Label)
-		}
+		//
+		// NOTE: Labels are not necessarily unique, e.g. `_` or no label.
+		// The parameters of function types have no identifier.
+		if param.Identifier != "" {
+			if _, ok := parameterIdentifiers[param.Identifier]; ok {
+				return nil, fmt.Errorf("found duplicate parameter identifier %s", param.Identifier)
+			}
 
-		if _, ok := parameterIdentifiers[param.Identifier]; ok {
-			return nil, fmt.Errorf("found duplicate parameter identifier %s", param.Identifier)
+			parameterIdentifiers[param.Identifier] = struct{}{}
 		}
-
-		parameterLabels[param.Label] = struct{}{}
-		parameterIdentifiers[param.Identifier] = struct{}{}
 
 		parameterTypes[i] = param
 	}
